@@ -21,26 +21,26 @@ NA = {
 CHECKS = {
  "C15": ("drive", "exploration",
    "deterministic simulation: seeded generation of (history, program) cases; six replicas driven under every host slicing x recording; pairwise state equality oracle; delta-debugged replay files",
-   "Seeded exploration of schedule independence: each case runs the same program on six booted replicas under {eval, compile+run, compile+single-step} x {recording off,on} with a watchdog instruction limit, and compares result, whole data stack, every variable and heap cell, and captured output pairwise. A clean batch is evidence over the sampled programs, not a proof.",
-   "Trusted: the simulator harness, xeh's verif_hooks dump (read-only), cargo. The program generator covers the constructs listed in sim/src/gen.rs; programs outside that grammar are not sampled.",
+   "Seeded exploration of schedule independence: each case runs the same program on six booted replicas under {eval, compile+run, compile+single-step} x {recording off,on} with the same instruction limit (and, in a quarter of the cases, the same stack / heap limit) on all six, and compares result, whole data stack, every variable and heap cell, and captured output pairwise. A program interrupted by the instruction limit is given a fresh budget and driven on in the same manner on every replica (slicing by the limit), then compared. The accepted history may contain lines that failed without leaving anything of themselves behind. A clean batch is evidence over the sampled programs, not a proof.",
+   "Trusted: the simulator harness, xeh's verif_hooks dump (read-only), cargo. The program generator emits 231 of the 239 dictionary words (not: random, random-bits, read-all, write-all, exec-piped, include, require, see) plus user-defined immediate words; programs outside that grammar are not sampled. Leftover frames of a line that failed inside a loop or call, and what a user immediate sees of the stack under compile, are listed in DESIGN §8.8 as seen, not claimed.",
    "DESIGN.md §5 C15"),
 }
 
 CHECKS["C02"] = ("reverse", "exploration",
    "deterministic simulation: the simulator owns the instruction pointer (next/rnext) and walks one execution in seeded order with forward bursts, rewinds, replays, mid-walk compiles and armed stack/instruction-limit faults inside single steps; oracle = recorded forward history of the same execution",
-   "Seeded exploration of rewind/replay interleavings: every position of a generated program's execution is recorded the first time it is reached (ip, whole data stack, frames with locals, loop stack, special stack, every heap cell, step result); every later visit by rnext or replay must show exactly that record. Limit trips armed inside a step check that partial effects of an interrupted instruction are undone exactly. Evidence over sampled programs and walks, not a proof.",
+   "Seeded exploration of rewind/replay interleavings: every position of a generated program's execution is recorded the first time it is reached (ip, whole data stack, frames with locals, loop stack, special stack, every heap cell, step result); every later visit by rnext or replay must show exactly that record. Limit trips armed inside a step check that partial effects of an interrupted instruction are undone exactly. One case in 50 000 is a long haul: an execution of about half a million steps (more than a million reverse-log entries) driven to its end, all the way back and forward again, compared at every 997th position. Evidence over sampled programs and walks, not a proof.",
    "Trusted: harness, verif_hooks dump. Programs come from the grammar in sim/src/gen.rs (<= 600 steps); a step that fails is the end of the forward path (the statement does not define stepping past a failure).",
    "DESIGN.md §5 C02")
 
 CHECKS["C14"] = ("limits", "exploration",
    "deterministic simulation with fault injection: instruction / stack / heap limits are the injected faults, armed at values on, just below and just above what an unlimited stepped twin of the same program needed, before the submission or between two steps; invariants after every step, twin-equality when not exceeded, recovery probes after every trip. Thorough tier enumerates every limit value 0..need+1 per sampled program",
-   "Quick: seeded sampling of (program, drive style, limit kind, limit value, arming instant). Thorough: for half of the sampled programs every value of all three limits from 0 to need+1 is enumerated (fault_enumeration over trip points; the programs themselves are sampled). Checks: meter <= N after every step, data stack and heap never grow past S / H, an exceeded limit makes the call fail with the limit error, a limit that is not exceeded changes neither result nor state, and after any trip self-contained probes succeed within 40 instructions once limits are cleared.",
-   "Trusted: harness, verif_hooks accessors (data/heap length, meter). Stack need is bracketed (push peak .. max length + 2) because the twin observes only between instructions; with build-time (meta) instructions only a huge stack limit is required to change nothing. Resumption of an interrupted program is measured, not required.",
+   "Quick: seeded sampling of (program, drive style, limit kind, limit value, arming instant). Thorough: for half of the sampled programs every value of all three limits from 0 to need+1 is enumerated (fault_enumeration over trip points; the programs themselves are sampled). Checks: meter <= N after every step; through hook H4 (a watch inside fetch_and_run, independent of the interpreter's meter) executed instructions <= N and the stack / heap high-water marks <= S / H at every instruction of every call, including build-time instructions of meta blocks and immediates; the bounds hold across follow-up evaluations under the same limits (accepted and rejected sources) and across reverse steps taken under an armed limit; an exceeded limit makes the call fail, a limit that is not exceeded changes neither result nor state, and after any trip self-contained probes succeed within 40 instructions once limits are cleared.",
+   "Trusted: harness, verif_hooks accessors (data/heap length, meter). Stack need is bracketed (push peak .. max length + 2) because the watch samples between instructions. Reverse steps are never taken back beyond the instant the limit was set (restoring an older, larger stack is not growth). Resumption of an interrupted program is measured, not required.",
    "DESIGN.md §5 C14")
 
 CHECKS["C10"] = ("reject", "exploration",
    "deterministic simulation with fault injection (crash consistency of the build pipeline): the build is killed at a chosen token by one of ~57 failing-token kinds, including instruction/stack limits armed to trip inside a meta block; victim/control twins re-executed from boot; state-shape oracle right after the rejection and twin equality after every follow-up probe; thorough tier enumerates every cut position x every failing kind per sampled base program",
-   "Quick: seeded sampling of (history, base program, cut position, failing kind, trailing text, submission styles eval / compile+run, probes). Thorough: for half of the sampled base programs every token position x every failing kind is enumerated, in a strided order and up to a deterministic work budget of 8 million VM instructions per base program (bases that exceed it get a spanning sample of pairs instead of all of them). Checks: right after the rejection the data stack, mode, nesting, pending flows and pending inputs are what they were; every later probe returns the same result and leaves the same visible stack, variables and output as on a control that never saw the rejected source; a source that fails at run time is not re-executed by later lines (literal probes push exactly their literal, print nothing).",
+   "Quick: seeded sampling of (history, base program, cut position, failing kind, trailing text, submission styles eval / compile+run, probes). Thorough: for half of the sampled base programs every token position x every failing kind is enumerated, in a strided order and up to a deterministic work budget of 8 million VM instructions per base program (bases that exceed it get a spanning sample of pairs instead of all of them). Checks: right after the rejection the data stack, mode, nesting, pending flows and pending inputs are what they were; every later probe returns the same result and leaves the same visible stack, variables and output as on a control that never saw the rejected source; a source that fails at run time is not re-executed by later lines (literal probes push exactly their literal, print nothing): one case in four is such a line, run under the ordinary budget, under a budget ending exactly on the failing instruction, or with a stack / heap limit tripping in the middle. Further fault kinds: the build dies inside or after an included / required virtual file (simulated file system, hook H2); the rejected source re-defines a constant / word / variable of the accepted history, or binds a late word at build time; the follow-up probes run under a tight heap limit on both twins; the rejected source arrives while an accepted program is paused by the instruction limit and that program is continued afterwards.",
    "Trusted: harness, verif_hooks dump. Name-space discipline: the rejected source, the history and the probes use disjoint names, so whether completed definitions of a rejected source survive is not observed. Output printed by meta blocks that completed before the rejection is not counted against it. Effects of user-defined immediate words executed at build time are a listed known finding.",
    "DESIGN.md §5 C10")
 
@@ -64,7 +64,7 @@ CHECKS["C06"] = ("cursor", "exploration",
 
 CHECKS["C08"] = ("chaos", "exploration",
    "deterministic simulation with fault injection over API call sequences: one long-lived interpreter is driven by seeded sequences of eval / compile / run / next / rnext / error formatting / value formatting / disassembly / set-input / limit setters / recording toggle / clone, inside a simulated environment (stdout sink that breaks after n bytes, virtual files that are missing / unreadable / not UTF-8, stub child process, PRNG entropy); oracle = every call returns (panics caught, aborts and hangs seen by the supervising process); both overflow-check configurations",
-   "Seeded exploration of call sequences with limit trips and environment faults firing inside words, in the release and the overflow-checked build. Two thirds of this property is input-space robustness (every word x every argument class): that part is covered by sampling a word x 0..3 arguments from 57 value classes as the workload corpus and is labelled as input enumeration by sampling, not as simulation. Every failure is minimised and replays exactly, in the build it was found in.",
+   "Seeded exploration of call sequences with limit trips and environment faults firing inside words, in the release and the overflow-checked build. Two thirds of this property is input-space robustness (every word x every argument class): that part is covered by sampling a word x 0..3 arguments from 57 value classes as the workload corpus and is labelled as input enumeration by sampling, not as simulation. Also in the corpus: whole generated programs, stores to the cursor / output variables followed by cursor words, enum with extreme values, sorts of long mixed-type vectors, files that include each other, reads of 121-128 bits at unaligned offsets, lines longer than 65535 columns, and themed cases (user immediates acting at build time in rejected sources, with reverse steps). Every failure is minimised and replays exactly, in the build it was found in.",
    "Trusted: harness, panic hook, supervisor. Proviso of the statement honoured: instruction and stack limits are always set; words whose argument is an allocation size (int!, uint!, random-bits, d2-resize) only get modest literal sizes; where a size operand nevertheless comes from elsewhere (stack leftovers re-read after an error, a doubling loop), the case-executing process has a memory guard: a single request of 4 GiB or more in a case that itself mentions a ten-digit integer or entropy, or a live footprint above 3 GiB, ends the case as outside the statement (counted as a probe, its shard range re-run without it); a giant request out of small arguments stays an abort violation. The terminal / line editor and the real file system are not exercised (stubs).",
    "DESIGN.md §5 C08")
 
